@@ -379,6 +379,7 @@ fn c04_execute_message_deploy() {
                 "OBL C11.remote_deploy_registers_once: the id is registered to the deployed address as a service-deployed token; nothing else is written"
             );
             assert!(shim::n_calls() == 1, "OBL C04.deploy_arm_moves_no_funds");
+            assert!(shim::n_calls() == 1, "OBL C11.remote_deploy_keeps_service_minter: the service makes no role call on the new token — it stays a minter (as owner) next to the designated minter");
             assert!(
                 shim::n_events() == 1 && shim::event_is(0, &(Symbol::new(&env, "interchain_token_deployed"), d.token_id, Address(dep.address), d.name.clone(), d.symbol.clone(), d.decimals as u32, minter.clone()), &Vec::<Val>::new(&env)),
                 "OBL C04.deployed_event_exact"
@@ -634,6 +635,7 @@ fn c18_deploy_remote_interchain_token() {
         "OBL C18.salt_bound_to_caller: the token is looked up under the id derived from the caller's own (deployer, salt) pair; the caller is the gas payer"
     );
     assert!(Some(r) == unsafe { DRT_RESULT }, "OBL C18.result_passed_through");
+    assert!(no_storage_change() && shim::n_events() == 0 && shim::n_deploys() == 0, "OBL C18.interchain_entry_delegates_only: the entry point registers nothing, emits nothing and moves nothing itself");
     kani::cover!(r.is_ok(), "COVER c18 remote interchain ok");
 }
 
@@ -654,6 +656,7 @@ fn c18_deploy_remote_canonical_token() {
         "OBL C18.canonical_salt_from_token_address: the token is looked up under the id derived from the canonical token's address; `spender` is the gas payer"
     );
     assert!(Some(r) == unsafe { DRT_RESULT }, "OBL C18.canonical_result_passed_through");
+    assert!(no_storage_change() && shim::n_events() == 0 && shim::n_deploys() == 0, "OBL C18.canonical_entry_delegates_only: the entry point registers nothing (an unregistered token stays unregistered), emits nothing and moves nothing itself");
     kani::cover!(r.is_ok(), "COVER c18 remote canonical ok");
 }
 
@@ -752,6 +755,18 @@ fn c06_its_remove_trusted_chain() {
             kani::cover!(true, "COVER remove trusted err");
         }
     }
+}
+
+#[kani::proof]
+fn c04_is_trusted_chain_view() {
+    let env = Env::default();
+    let _h = shim::fresh_host();
+    let chain = String::symbolic();
+    let r = S::is_trusted_chain(&env, chain.clone());
+    assert!(r == pers().pre_has(&DataKey::TrustedChain(chain.clone())), "OBL C04.trusted_chain_view_agrees: a chain is reported trusted exactly while its entry is set");
+    assert!(shim::no_effects() && shim::n_auth() == 0, "OBL C04.trusted_chain_view_pure");
+    kani::cover!(r, "COVER trusted view true");
+    kani::cover!(!r, "COVER trusted view false");
 }
 
 #[kani::proof]
